@@ -711,3 +711,10 @@ Definition compact_fields_okb (defs : list sdef) (d : sdef) (args : list src) : 
                          negb (String.eqb (fst (snd ap)) (render defs (map fst (sd_params d)) (sf_ty f)))))
                      (combine args (sd_params d)))
           (def_sfields d).
+
+(** the recorded type name mentions [Box<] exactly when the source type does (true of every
+    program whose identifiers do not contain the characters [Box<]; decidable per definition) *)
+Definition box_names_okb (defs : list sdef) (d : sdef) : bool :=
+  forallb (fun f : sfield =>
+             Bool.eqb (contains "Box<" (render defs (map fst (sd_params d)) (sf_ty f))) (has_box (sf_ty f)))
+          (def_sfields d).
